@@ -131,26 +131,22 @@ structure RoutedTrack where
 def putTrack (ts : List RoutedTrack) (t : RoutedTrack) : List RoutedTrack :=
   if ts.any (·.key == t.key) then ts.map fun x => if x.key == t.key then t else x else ts ++ [t]
 
-structure Routed where
-  tracks : List RoutedTrack
-  unparsable : Nat
-  unhandled : List Str
-  deriving Repr, DecidableEq
-
-/-- the routing loop over all sections in dict order; `sel` = "no selection, or the pair is wanted" -/
-def routeTracks (res : Int) (evs : List BpmEv) (sel : Nat × Nat → Bool) : Sections → Routed → M Routed
-  | [], acc => .ok acc
-  | (tag, lines) :: rest, acc =>
+/-- the routing loop over all sections in dict order; `sel` = "no selection, or the pair is wanted".
+    Result: the tracks in routing order, the number of unparsable lines, the unhandled tags. -/
+def routeTracks (res : Int) (evs : List BpmEv) (sel : Nat × Nat → Bool) :
+    Sections → M (List RoutedTrack × Nat × List Str)
+  | [] => .ok ([], 0, [])
+  | (tag, lines) :: rest =>
     match routeOf tag with
     | some r =>
       if sel (r.1, r.2.1) then
         parseTrack res evs lines >>= fun t =>
-          routeTracks res evs sel rest
-            ⟨putTrack acc.tracks ⟨(r.1, r.2.1), (r.2.2.1, r.2.2.2), t.1⟩, acc.unparsable + t.2, acc.unhandled⟩
-      else routeTracks res evs sel rest acc
+          routeTracks res evs sel rest >>= fun rr =>
+            .ok (⟨(r.1, r.2.1), (r.2.2.1, r.2.2.2), t.1⟩ :: rr.1, t.2 + rr.2.1, rr.2.2)
+      else routeTracks res evs sel rest
     | none =>
-      if Gen.requiredTags.contains tag then routeTracks res evs sel rest acc
-      else routeTracks res evs sel rest ⟨acc.tracks, acc.unparsable, acc.unhandled ++ [tag]⟩
+      routeTracks res evs sel rest >>= fun rr =>
+        .ok (rr.1, rr.2.1, if Gen.requiredTags.contains tag then rr.2.2 else tag :: rr.2.2)
 
 /-! ## the chart -/
 
@@ -186,8 +182,8 @@ def parseSections (secs : Sections) (want : Option (List (Nat × Nat))) : M Char
     parseSync (resOf metad) syncLines >>= fun sy =>
     lookup secs (tagAt 2) >>= fun evLines =>
     parseEvents (resOf metad) sy.1.bpms evLines >>= fun ev =>
-    routeTracks (resOf metad) sy.1.bpms (selOf want) secs ⟨[], 0, []⟩ >>= fun tr =>
-      .ok ⟨metad, resOf metad, sy.1, ev.1, tr.tracks, sy.2 + ev.2 + tr.unparsable, tr.unhandled⟩
+    routeTracks (resOf metad) sy.1.bpms (selOf want) secs >>= fun tr =>
+      .ok ⟨metad, resOf metad, sy.1, ev.1, tr.1.foldl putTrack [], sy.2 + ev.2 + tr.2.1, tr.2.2⟩
 
 /-- `Chart.from_file(io.StringIO(text), want_tracks = want)` -/
 def parseChart (text : Str) (want : Option (List (Nat × Nat))) : M Chart :=
